@@ -42,16 +42,17 @@ func smallExpiry(g *genesis.Genesis) {
 // ---------------------------------------------------------------- independent acceptance predicate
 
 type world struct {
-	s        *netsim.Sim
-	nd       *netsim.Node
-	H        uint64               // committed heights with block metas
-	times    map[uint64]time.Time // block time per height
-	powers   map[common.Address]int64
-	total    int64
-	stateH   uint64          // pool's state height (for expiry)
-	stateT   time.Time       // pool's state time
-	commited map[string]bool // semantic keys of committed offences
-	comItems map[string][]*types.DuplicateVoteEvidence
+	maxAgeDur time.Duration // evidence parameter MaxAgeDuration of this chain (MaxAgeNumBlocks is always maxAgeBlocks)
+	s         *netsim.Sim
+	nd        *netsim.Node
+	H         uint64               // committed heights with block metas
+	times     map[uint64]time.Time // block time per height
+	powers    map[common.Address]int64
+	total     int64
+	stateH    uint64          // pool's state height (for expiry)
+	stateT    time.Time       // pool's state time
+	commited  map[string]bool // semantic keys of committed offences
+	comItems  map[string][]*types.DuplicateVoteEvidence
 }
 
 func blockKey(id types.BlockID) string { return netsim.ExactKey(id) }
@@ -112,7 +113,11 @@ func (w *world) valid(e *types.DuplicateVoteEvidence) string {
 		return "time-wrong"
 	}
 	ageBlocks := int64(w.stateH) - int64(a.Height)
-	if w.stateT.Sub(bt) > time.Nanosecond && ageBlocks > maxAgeBlocks {
+	dur := w.maxAgeDur
+	if dur == 0 {
+		dur = time.Nanosecond
+	}
+	if w.stateT.Sub(bt) > dur && ageBlocks > maxAgeBlocks {
 		return "expired"
 	}
 	if w.commited[offence(e)] {
@@ -308,7 +313,15 @@ func buildWorld(t *rapid.T) *world {
 	}
 	var s *netsim.Sim
 	var err error
-	ev.Guard(t, nil, func() { s, err = netsim.NewSimWith(powers, nil, nil, netsim.GenesisOpts{Mutate: smallExpiry}) })
+	// expiry needs BOTH bounds to be exceeded. Profile "1ns": the time bound is always exceeded, the block bound decides.
+	// Profile "1000h": the time bound is never exceeded, so nothing expires however far the chain grows past the block
+	// bound - committed evidence must stay refused there.
+	maxAgeDur := rapid.SampledFrom([]time.Duration{time.Nanosecond, time.Nanosecond, 1000 * time.Hour}).Draw(t, "maxAgeDuration")
+	expiry := func(g *genesis.Genesis) {
+		smallExpiry(g)
+		g.ConsensusParams.Evidence.MaxAgeDuration = maxAgeDur
+	}
+	ev.Guard(t, nil, func() { s, err = netsim.NewSimWith(powers, nil, nil, netsim.GenesisOpts{Mutate: expiry}) })
 	if err != nil {
 		t.Fatalf("harness: %v", err)
 	}
@@ -322,7 +335,7 @@ func buildWorld(t *rapid.T) *world {
 		t.Fatalf("harness: chain: %s", why)
 	}
 	nd := s.Nodes[0]
-	w := &world{s: s, nd: nd, H: H, times: map[uint64]time.Time{}, powers: map[common.Address]int64{}, commited: map[string]bool{}, comItems: map[string][]*types.DuplicateVoteEvidence{}}
+	w := &world{maxAgeDur: maxAgeDur, s: s, nd: nd, H: H, times: map[uint64]time.Time{}, powers: map[common.Address]int64{}, commited: map[string]bool{}, comItems: map[string][]*types.DuplicateVoteEvidence{}}
 	for h := uint64(1); h <= H; h++ {
 		w.times[h] = nd.BOps.LoadBlockMeta(h).Header.Time
 	}
@@ -344,7 +357,8 @@ func TestEvidencePool(t *testing.T) {
 		defer w.s.Close()
 		var log []string
 		text := func() string { return strings.Join(log, ";") }
-		log = append(log, fmt.Sprintf("chain n=%d H=%d", len(w.s.Keys), w.H))
+		log = append(log, fmt.Sprintf("chain n=%d H=%d maxAge=%d blocks and %v", len(w.s.Keys), w.H, maxAgeBlocks, w.maxAgeDur))
+		ev.Class("max-age-duration:" + w.maxAgeDur.String())
 		steps := rapid.IntRange(3, 14).Draw(t, "steps")
 		nontrivial := false
 		var history []*types.DuplicateVoteEvidence
@@ -394,6 +408,9 @@ func TestEvidencePool(t *testing.T) {
 				reason := w.valid(e)
 				if reason != "" {
 					ev.Class("predicate-rejects:" + reason)
+				}
+				if reason == "already-committed" && int64(w.stateH)-int64(e.VoteA.Height) > maxAgeBlocks {
+					ev.Class("replay-of-committed-evidence-outside-the-block-window-but-not-expired")
 				}
 				before := w.pending()
 				var err error
@@ -447,6 +464,15 @@ func TestEvidencePool(t *testing.T) {
 				log = append(log, fmt.Sprintf("commit %d items -> state height %d", len(list), st.LastBlockHeight))
 				ev.Guard(t, text, func() { w.nd.EvPool.Update(st, list) })
 				w.stateH, w.stateT = st.LastBlockHeight, st.LastBlockTime
+				// sometimes the chain grows by a few more (empty) blocks, so that earlier heights leave the block window
+				for extra := rapid.SampledFrom([]int{0, 0, 0, 1, 4}).Draw(t, "emptyblocks"); extra > 0; extra-- {
+					st = w.nd.EvPool.State()
+					st.LastBlockHeight++
+					st.LastBlockTime = st.LastBlockTime.Add(time.Second)
+					log = append(log, fmt.Sprintf("empty block -> state height %d", st.LastBlockHeight))
+					ev.Guard(t, text, func() { w.nd.EvPool.Update(st, nil) })
+					w.stateH, w.stateT = st.LastBlockHeight, st.LastBlockTime
+				}
 				// committed items are gone from pending; expired ones too; everything else is still offered
 				after := w.pending()
 				for _, e := range list {
